@@ -231,8 +231,13 @@ def untyped_regions(ctx, n):
                 body = G.replace_at(body, p, lambda d: ck)
             else:
                 body = G.replace_at(body, p, lambda d: G.with_tag(d, tag) if d[0] in ('s', 'q', 'm') else d)
-        shape = rng.choice(['any', 'payload', 'extra', 'list', 'dict', 'dashed-any', 'dup-any', 'dashed-any'])
-        if shape == 'dashed-any':
+        shape = rng.choice(['any', 'payload', 'extra', 'list', 'dict', 'dashed-any', 'dup-any', 'dashed-any',
+                            'extra-literal'])
+        if shape == 'extra-literal':
+            # a key spelt exactly like the catch-all parameter
+            t, doc = ('cls', 'Open'), ('m', [(S('a'), S('1')), (S('_yatiml_extra'), body)] +
+                                        ([(S('other'), S('2'))] if rng.random() < 0.5 else []), None)
+        elif shape == 'dashed-any':
             t, doc = ('cls', 'Loose'), ('m', [(S('a'), S('1')), (S('some-thing'), body)], None)
         elif shape == 'dup-any':
             t = ('cls', 'Loose')
@@ -376,7 +381,8 @@ def hierarchy_cases(ctx, n):
         else:
             base = plain('Alpha', [], [], own_params(used, rng.randint(0, 2)), rng.random() < 0.3,
                          abstract=('abc' if rng.random() < 0.15 else None))
-            d1 = plain('Beta', ['Alpha'], base['params'], own_params(used, rng.randint(1, 2)), rng.random() < 0.5)
+            d1 = plain('Beta', ['Alpha'], base['params'], own_params(used, rng.randint(1, 2)), rng.random() < 0.5,
+                       abstract=('abc' if rng.random() < 0.3 else None))   # class Beta(Alpha, abc.ABC)
             parent = d1 if shape == 'chain' else base
             d2 = plain('Gamma', [parent['name']], parent['params'], own_params(used, rng.randint(1, 2)),
                        rng.random() < 0.5)
@@ -389,6 +395,12 @@ def hierarchy_cases(ctx, n):
         try:
             target = rng.choice([c['name'] for c in spec if not c.get('abstract')])
             doc = G.gen_doc(rng, spec, ('cls', target))
+            absn = [c for c in spec if c.get('abstract')]
+            if absn and rng.random() < 0.5:
+                # a document written for the abstract class itself (matches it, maybe none of its subclasses)
+                target = absn[0]['name']
+                doc = ('m', [(S(p['name']), G.scalar_for(rng, p['type'])) for p in absn[0]['params']
+                             if p.get('default', CM.NODEFAULT) is CM.NODEFAULT or rng.random() < 0.5], None)
             # gen_doc picks among the concrete descendants of target
             if doc[0] == 'm' and rng.random() < 0.45:
                 pairs = list(doc[1])
